@@ -960,7 +960,7 @@ func init() {
 			fn := p.MustFn("parser.ParseTemplateBytes")
 			var parse ssa.CallInstruction
 			for _, site := range callsIn(fn) {
-				if calleeName(site.Common()) == "golang.org/x/net/html.Parse" {
+				if nm := calleeName(site.Common()); nm == "golang.org/x/net/html.Parse" || nm == "golang.org/x/net/html.ParseWithOptions" {
 					parse = site
 				}
 			}
@@ -1247,6 +1247,19 @@ func init() {
 					}
 				}
 				short := strings.TrimPrefix(strings.TrimPrefix(name, "(*vuego.Vue)."), "vuego.")
+				if len(wholeEvals) == 0 && name != "(*vuego.Vue).evalConditionExpr" {
+					// the position hands the whole text to evalConditionExpr, which is judged on its own
+					deleg := false
+					for _, site := range callsIn(fn) {
+						if calleeName(site.Common()) == "(*vuego.Vue).evalConditionExpr" {
+							deleg = true
+						}
+					}
+					if deleg {
+						c.ok(short+": evaluates the whole expression", p.pos(fn.Pos()), "through evalConditionExpr")
+						continue
+					}
+				}
 				c.check(len(wholeEvals) > 0, short+": evaluates the whole expression", p.pos(fn.Pos()), fmt.Sprintf("%d evaluator call(s) on the whole expression", len(wholeEvals)), "no call of the expression evaluator on the whole expression")
 				for _, site := range others {
 					n++
@@ -2084,7 +2097,7 @@ func init() {
 
 func init() {
 	register(&Rule{
-		ID: "C17.R8", Props: []string{"C17", "C04", "C08"}, Min: 2,
+		ID: "C17.R8", Props: []string{"C17", "C04", "C08", "C05"}, Min: 2, // C05: a null prop or front-matter key hides the includer's variable of the same name
 		Doc: "the innermost binding wins, whatever its value: in Stack.Lookup the scan over the scopes stops at the first scope whose map has the key — the decision uses only the presence flag of the map lookup (and the loop bound), never the value found. A test on the value (`ok && v != nil`) lets a name bound to nil fall through to an outer scope, so Lookup disagrees with the merged environment and a loop variable holding nil is shadowed by an outer variable of the same name",
 		Run: func(p *Prog, c *Ctx) {
 			fn := p.MustFn("(*vuego.Stack).Lookup")
